@@ -2,6 +2,7 @@ import PytezosModel.Proofs.InterpStack
 import PytezosModel.Proofs.InterpComb
 import PytezosModel.Proofs.InterpArith
 import PytezosModel.Proofs.InterpColl
+import PytezosModel.Proofs.InterpContracts
 import PytezosModel.Michelson.Interp.Spec
 /-! Instructions without sub-programs: the mirror's pop/push sequences against the reference rules. -/
 namespace Interp
@@ -172,7 +173,13 @@ theorem step_ABS (hr : Spec.step env .ABS st ≠ .stuck) :
 theorem step_ISNAT (hr : Spec.step env .ISNAT st ≠ .stuck) :
     Impl.step env .ISNAT (stk pre st) = (Spec.step env .ISNAT st).map' (stk pre) := by step_top1
 theorem step_INT (hr : Spec.step env .INT st ≠ .stuck) :
-    Impl.step env .INT (stk pre st) = (Spec.step env .INT st).map' (stk pre) := by step_top1
+    Impl.step env .INT (stk pre st) = (Spec.step env .INT st).map' (stk pre) := by
+  rcases st with _ | ⟨a, st⟩
+  · exact absurd rfl hr
+  · cases a <;> first | (exact absurd rfl hr) | skip
+    · rename_i t v; cases t <;> first | (exact absurd rfl hr) | skip
+      simp [Impl.step, Spec.step]
+    · simp [Impl.step, Spec.step, numFromValue_eq, Spec.numOk, fromBytes_signed]
 theorem step_EQ (hr : Spec.step env .EQ st ≠ .stuck) :
     Impl.step env .EQ (stk pre st) = (Spec.step env .EQ st).map' (stk pre) := by step_top1
 theorem step_NEQ (hr : Spec.step env .NEQ st ≠ .stuck) :
@@ -332,6 +339,28 @@ theorem step_UPDATEN (n : Nat) (hr : Spec.step env (.UPDATEN n) st ≠ .stuck) :
       simp
     · obtain ⟨⟨a, b, rfl⟩, h2⟩ := updateComb_refines n e v r (by omega) hq
       simp [hn, h2]
+
+/-- instructions of the form `a = pop1(); res = f(a); push(res)` -/
+theorem step_unop (i : Instr) (f g : Val → Res Val)
+    (hs : ∀ a st, Spec.step env i (a :: st) = (f a).bind fun r => .ok (r :: st))
+    (hs0 : Spec.step env i [] = .stuck)
+    (hi : ∀ s, Impl.step env i s = (do let (a, s) ← s.pop1; let r ← g a; pure (s.push r)))
+    (hfg : ∀ a, f a ≠ .stuck → g a = f a)
+    (hr : Spec.step env i st ≠ .stuck) :
+    Impl.step env i (stk pre st) = (Spec.step env i st).map' (stk pre) := by
+  rcases st with _ | ⟨a, st⟩
+  · exact absurd hs0 hr
+  rw [hs] at hr ⊢
+  have h1 := bind_ne_stuck_step hr
+  rw [hi, pop1_mk_cons]
+  simp only [Res.bind_ok, hfg a h1]
+  cases hq : f a with
+  | stuck => exact absurd hq h1
+  | failed _ => simp
+  | rtfail => simp
+  | oof => simp
+  | offguard => simp
+  | ok r => simp
 
 /-- instructions of the form `a, b = pop2(); res = f(a, b); push(res)` -/
 theorem step_binop (i : Instr) (f g : Val → Val → Res Val)
@@ -713,6 +742,45 @@ theorem step_refines (env : Env) (i : Instr) (pre st : List Val) (hr : Spec.step
     exact step_ternop env pre st .UPDATE Spec.updateV Impl.execUpdate (fun _ _ _ _ => rfl) rfl (fun a => by cases a <;> rfl)
       (fun a b => by cases a <;> rfl) (fun _ => rfl) execUpdate_eq hr
   case GET_AND_UPDATE => exact step_GET_AND_UPDATE env pre st hr
+  case NEVER =>
+    refine absurd ?_ hr
+    rcases st with _ | ⟨a, st⟩
+    · rfl
+    · cases a <;> rfl
+  case NAT =>
+    exact step_unop env pre st .NAT (Spec.unV env .NAT) (Impl.execUn env .NAT) (fun _ _ => rfl) rfl (fun _ => rfl)
+      (execUn_eq env .NAT) hr
+  case BYTES =>
+    exact step_unop env pre st .BYTES (Spec.unV env .BYTES) (Impl.execUn env .BYTES) (fun _ _ => rfl) rfl (fun _ => rfl)
+      (execUn_eq env .BYTES) hr
+  case VOTING_POWER =>
+    exact step_unop env pre st .VOTING_POWER (Spec.unV env .VOTING_POWER) (Impl.execUn env .VOTING_POWER) (fun _ _ => rfl) rfl
+      (fun _ => rfl) (execUn_eq env .VOTING_POWER) hr
+  case HASH_KEY =>
+    exact step_unop env pre st .HASH_KEY (Spec.unV env .HASH_KEY) (Impl.execUn env .HASH_KEY) (fun _ _ => rfl) rfl
+      (fun _ => rfl) (execUn_eq env .HASH_KEY) hr
+  case ADDRESS =>
+    exact step_unop env pre st .ADDRESS (Spec.unV env .ADDRESS) (Impl.execUn env .ADDRESS) (fun _ _ => rfl) rfl (fun _ => rfl)
+      (execUn_eq env .ADDRESS) hr
+  case IMPLICIT_ACCOUNT =>
+    exact step_unop env pre st .IMPLICIT_ACCOUNT (Spec.unV env .IMPLICIT_ACCOUNT) (Impl.execUn env .IMPLICIT_ACCOUNT)
+      (fun _ _ => rfl) rfl (fun _ => rfl) (execUn_eq env .IMPLICIT_ACCOUNT) hr
+  case CONTRACT t ep =>
+    exact step_unop env pre st (.CONTRACT t ep) (Spec.unV env (.CONTRACT t ep)) (Impl.execUn env (.CONTRACT t ep))
+      (fun _ _ => rfl) rfl (fun _ => rfl) (execUn_eq env (.CONTRACT t ep)) hr
+  case SET_DELEGATE =>
+    exact step_unop env pre st .SET_DELEGATE (Spec.unV env .SET_DELEGATE) (Impl.execUn env .SET_DELEGATE)
+      (fun _ _ => rfl) rfl (fun _ => rfl) (execUn_eq env .SET_DELEGATE) hr
+  case EMIT tag t =>
+    exact step_unop env pre st (.EMIT tag t) (Spec.unV env (.EMIT tag t)) (Impl.execUn env (.EMIT tag t))
+      (fun _ _ => rfl) rfl (fun _ => rfl) (execUn_eq env (.EMIT tag t)) hr
+  case SELF ep t => simp [Impl.step, Spec.step, addrFromValue_eq]
+  case PACK =>
+    exact step_unop env pre st .PACK (Spec.unV env .PACK) (Impl.execUn env .PACK) (fun _ _ => rfl) rfl (fun _ => rfl)
+      (execUn_eq env .PACK) hr
+  case TRANSFER_TOKENS =>
+    exact step_ternop env pre st .TRANSFER_TOKENS (Spec.transferTokensV env) (Impl.execTransferTokens env) (fun _ _ _ _ => rfl) rfl
+      (fun a => rfl) (fun a b => rfl) (fun _ => rfl) (execTransferTokens_eq env) hr
   case PAIRN n => exact step_PAIRN env pre st n hr
   case UNPAIRN n => exact step_UNPAIRN env pre st n hr
   case GETN n => exact step_GETN env pre st n hr
